@@ -566,6 +566,15 @@ class BlockMessageMethodSetByteItem(BlockMessageMethodGetSetByteItemBase):
             # Cast to signed-int if overflows
             # Python dosen't have a type for int8, int16..
             caster = "bp.int{}".format(self.formatter.get_nbits_of_integer(single))
+        if isinstance(single, Enum):
+            # Byte `b` may hold only a part of the enum's bits (enums wider than
+            # 8 bits, or crossing a byte boundary), which is not a valid member
+            # on its own: accumulate plain integers.
+            type_name = "int"
+            if isinstance(self.d.type, Enum):
+                # Write through the integer proxy, the property getter would
+                # convert a partially decoded value to the enum.
+                left = f"self.{_enum_field_proxy_prefix}{self.message_field_name}"
 
         right = value = f"{type_name}(b)"
 
